@@ -133,6 +133,11 @@ func TestC17(t *testing.T) {
 	cfg.AllowPrune = true
 	cfg.WWalk = 22
 	cfg.WTx = 20
+	// consensus rollbacks of the tip (the miner's real truncateForMiner: legal only above the irreversible height)
+	// followed by restarts: neither may lower the irreversible height
+	cfg.AllowTruncate = true
+	cfg.WTruncate = 6
+	cfg.WReopen = 8
 	c.Check(t, "node-machine-window", hx.N(500, 3500), func(cs *hx.Case) {
 		// a few adversarial peer blocks (state-invalid ones make multi-block walks abort part-way)
 		runMixedCase(cs, fs, cfg, 0, 9, nil, func(nm *hx.NodeMachine) {
